@@ -42,36 +42,53 @@ struct ErrOnlyH : public DefaultHandler, Collector {
     void resetErrors() override {}
 };
 
+// SAX2: handleElementPSVI arrives in end-tag order (empty elements get no partial callback), handleAttributesPSVI in start-tag
+// order; both are re-associated with the elements through the tree recorded in the event dump (see sax2_assign_types).
 struct PsviH : public PSVIHandler {
-    std::vector<TypeRec>* out = nullptr;
-    std::vector<size_t> open;   // indexes into *out of the currently open elements
-    void handlePartialElementPSVI(const XMLCh* const local, const XMLCh* const, PSVIElement*) override {
-        TypeRec t; t.name = esc16(local); t.depth = (int)open.size();
-        out->push_back(t);
-        open.push_back(out->size() - 1);
-    }
+    std::vector<TypeRec> ends;                       // one per handleElementPSVI call
+    std::vector<std::vector<std::string>> attrLists; // one per handleAttributesPSVI call
+    void handlePartialElementPSVI(const XMLCh* const, const XMLCh* const, PSVIElement*) override {}
     void handleElementPSVI(const XMLCh* const local, const XMLCh* const, PSVIElement* e) override {
-        if (open.empty()) return;
-        TypeRec& t = (*out)[open.back()];
-        open.pop_back();
-        (void)local;
+        TypeRec t; t.name = esc16(local);
         t.validity = (int)e->getValidity();
         XSTypeDefinition* td = e->getTypeDefinition();
         if (td) { t.tns = esc16(td->getNamespace()); t.tname = esc16(td->getName()); t.anon = td->getAnonymous() ? 1 : 0; }
         t.dflt = esc16(e->getSchemaDefault());
+        ends.push_back(t);
     }
     void handleAttributesPSVI(const XMLCh* const, const XMLCh* const, PSVIAttributeList* l) override {
-        if (open.empty()) return;
-        TypeRec& t = (*out)[open.back()];
+        std::vector<std::string> as;
         for (XMLSize_t i = 0; i < l->getLength(); i++) {
             PSVIAttribute* a = l->getAttributePSVIAtIndex(i);
             XSTypeDefinition* td = a->getTypeDefinition();
-            t.attrs.push_back(esc16(l->getAttributeNameAtIndex(i)) + "|" + std::to_string((int)a->getValidity()) + "|" + (td ? esc16(td->getNamespace()) : std::string("-")) + "|" +
-                              (td ? esc16(td->getName()) : std::string("-")) + "|" + esc16(a->getSchemaDefault()) + "|" + (a->getIsSchemaSpecified() ? "dflt" : "spec"));
+            as.push_back(esc16(l->getAttributeNameAtIndex(i)) + "|" + std::to_string((int)a->getValidity()) + "|" + (td ? esc16(td->getNamespace()) : std::string("-")) + "|" +
+                         (td ? esc16(td->getName()) : std::string("-")) + "|" + esc16(a->getSchemaDefault()) + "|" + (a->getIsSchemaSpecified() ? "dflt" : "spec"));
         }
-        std::sort(t.attrs.begin(), t.attrs.end());
+        std::sort(as.begin(), as.end());
+        attrLists.push_back(as);
     }
 };
+inline void sax2_assign_types(const std::vector<std::string>& lines, const PsviH& ph, std::vector<TypeRec>& out) {
+    std::vector<int> depthOf; std::vector<std::string> nameOf; std::vector<size_t> stack, post;
+    for (auto& l : lines) {
+        if (l.compare(0, 2, "S|") == 0) {
+            depthOf.push_back((int)stack.size());
+            nameOf.push_back(l.substr(l.rfind('|') + 1));
+            stack.push_back(depthOf.size() - 1);
+        } else if (l.compare(0, 2, "E|") == 0 && !stack.empty()) { post.push_back(stack.back()); stack.pop_back(); }
+    }
+    out.clear();
+    if (post.size() != ph.ends.size() || post.size() != depthOf.size()) return;   // caller reports the misalignment
+    out.resize(depthOf.size());
+    for (size_t k = 0; k < post.size(); k++) {
+        TypeRec t = ph.ends[k];
+        if (t.name != nameOf[post[k]]) { out.clear(); return; }
+        t.depth = depthOf[post[k]];
+        out[post[k]] = t;
+    }
+    if (ph.attrLists.size() == out.size())
+        for (size_t j = 0; j < out.size(); j++) out[j].attrs = ph.attrLists[j];
+}
 
 inline void dom_types(DOMNode* n, int depth, std::vector<TypeRec>& out) {
     if (n->getNodeType() != DOMNode::ELEMENT_NODE) return;
@@ -116,7 +133,7 @@ inline Parsed parse8(const Config& c, const std::string& bytes, bool dump, bool 
             std::unique_ptr<SAX2XMLReader> p(XMLReaderFactory::createXMLReader());
             Sax2H h; h.r = &r; h.cfg = &c; h.nsmode = c.ns;
             ErrOnlyH eh; eh.r = &r; eh.cfg = &c;
-            PsviH ph; ph.out = &P.types;
+            PsviH ph;
             p->setProperty(XMLUni::fgXercesScannerName, (void*)X16(ScnName[c.scanner]).p());
             p->setFeature(XMLUni::fgSAX2CoreNameSpaces, c.ns);
             p->setFeature(XMLUni::fgSAX2CoreNameSpacePrefixes, false);
@@ -125,11 +142,12 @@ inline Parsed parse8(const Config& c, const std::string& bytes, bool dump, bool 
             p->setFeature(XMLUni::fgXercesSchema, c.schema);
             p->setFeature(XMLUni::fgXercesSchemaFullChecking, c.fullcheck);
             p->setFeature(XMLUni::fgXercesIdentityConstraintChecking, c.idc);
-            if (dump) { p->setContentHandler(&h); p->setErrorHandler(&h); }
+            if (dump || types) { p->setContentHandler(&h); p->setErrorHandler(&h); }
             else p->setErrorHandler(&eh);
             if (types) ((SAX2XMLReaderImpl*)p.get())->setPSVIHandler(&ph);
             p->parse(src);
             r.d.flush();
+            if (types) sax2_assign_types(r.d.lines, ph, P.types);
         } else {
             XercesDOMParser p;
             Sax1H h; h.r = &r; h.cfg = &c;
